@@ -110,10 +110,11 @@ RunOutcome exec_C09(const Case &c) {
     if (history) {
         // ---- history independence: the plans one after the other in one thread, under dirty fresh heap AND workspace memory ----
         out.stats["history_runs"] += 1;
-        if (singular) { out.stats["dirty_pass_skipped_singular"] += 1; out.hash = h.h; s << ",\"mode\":\"history(skipped: singular)\"}"; out.sample = s.str(); return out; }
+        // a plan with an exactly-zero pivot (recorded finding KF1): growable factor arrays and caller workspaces stay zeroed, all other fresh blocks are dirty
+        if (singular) out.stats["dirty_pass_factor_arrays_clean"] += 1;
         std::vector<TaskPlan> dirty = c.tasks;
-        for (auto &t : dirty) for (auto &o : t.ops) o.wsgarbage = c.prior_plans;
-        std::vector<PlanRun> seq = run_plans_sequential(dirty, c09_cfg(), c.prior_plans);
+        for (auto &t : dirty) for (auto &o : t.ops) o.wsgarbage = singular ? (int)G_ZERO : c.prior_plans;
+        std::vector<PlanRun> seq = run_plans_sequential(dirty, c09_cfg(), c.prior_plans | (singular ? G_CLEAN_GROWTH : 0));
         out.stats[std::string("garbage_") + kGarbageName[c.prior_plans]] += 1;
         for (int i = 0; i < nt; i++) {
             h.u64(seq[i].evhash);
